@@ -101,6 +101,8 @@ void gen_async_cfg(Rng &g, run::Plan &p, bool ha) {
 	p.cfg["epoch_ms"] = (int64_t)g.below(1000);
 	p.cfg["loglevel"] = g.chance(1, 6) ? 5 : 0;
 	p.cfg["quiesce"] = 1;
+	// configuration requests among the submissions (plain service, PDU version 2)
+	p.cfg["conf_req"] = (!ha && p.c("pdu_ver") == 2 && g.chance(1, 4)) ? 1 : 0;
 	if (ha) p.cfg["eps"] = (int64_t)g.range(1, 3);
 	if (prop == "C06") { p.cfg["adv"] = 1; }
 	if (prop == "C14") {
